@@ -122,6 +122,12 @@ func trunc(es []string) []string {
 // SymWaitExceedsMax is the only symptom decided by an upper bound on elapsed time.
 const SymWaitExceedsMax = "retry-wait-exceeds-max"
 
+// SymExpiredActionUsedLate also rests on elapsed time (a correct client leaves itself 5 s between its check and the
+// advertised expiry); it is confirmed by re-running the case like SymWaitExceedsMax.
+const SymExpiredActionUsedLate = "action-used-after-advertised-expiry"
+
+func timingSymptom(s string) bool { return s == SymWaitExceedsMax || s == SymExpiredActionUsedLate }
+
 // JudgeC15: retry discipline (see DESIGN.md §5 C15).
 func JudgeC15(r *Record) {
 	c := r.Case
@@ -227,6 +233,13 @@ func JudgeC15(r *Record) {
 			if strings.HasPrefix(last, "expired") {
 				r.add("expired-action-used", r.theme(), "%s handed to the adapter although the latest batch answer carried an action that had already expired", oid)
 			}
+		}
+	}
+	// ... nor is an action used after the expiry the server advertised for it has passed (real adapters: the
+	// storage request names the batch answer it belongs to; stamps taken by the server on one clock)
+	for _, a := range r.Attempts {
+		if a.LateNs > 0 {
+			r.add(SymExpiredActionUsedLate, r.theme(), "storage request for %s used the action of batch answer %s %.1f s after its advertised expiry instead of re-requesting it", a.Oid, a.Token, float64(a.LateNs)/1e9)
 		}
 	}
 	// tq-level batch submissions per object are bounded by the same budget
